@@ -128,9 +128,15 @@ func (c *FakeConn) Read(b []byte) (int, error) {
 	if vsched.Poisoned() {
 		return 0, net.ErrClosed
 	}
-	vsched.VisibleOp("read", "Read "+c.Name, func() bool { return len(c.in) > 0 || c.closed || c.peerClosed || c.hasDL })
+	// a read with a deadline times out when the virtual clock has passed the deadline (only the harness
+	// moves the clock), never spontaneously: a polling reader parks instead of spinning
+	expired := func() bool { return c.hasDL && !vsched.VNow().Before(c.deadline) }
+	vsched.VisibleOp("read", "Read "+c.Name, func() bool { return len(c.in) > 0 || c.closed || c.peerClosed || expired() })
 	if c.closed {
 		return 0, &net.OpError{Op: "read", Net: c.network, Err: net.ErrClosed}
+	}
+	if expired() {
+		return 0, &net.OpError{Op: "read", Net: c.network, Err: timeoutErr{}}
 	}
 	if len(c.in) > 0 {
 		c.clk.Acquire()
